@@ -64,6 +64,43 @@ CLAIMS["C16"] = (
     "DenseBreedingValueMatrix.from_pandas ignores location/scale; DenseScaledSquareTaxaTraitMatrix copies drop group metadata.",
     "DESIGN.md §4 C16")
 
+CLAIMS["C01"] = (
+    "template verification of the meiosis kernel (store provenance, cursor tiling invariant) + abstract interpretation of the seven mate() "
+    "bodies in a cross-identity algebra (pedigree term, per-cross expansion sequences) compared with a pedigree table + keyword/def-use rules (ast)",
+    "Decides Mendelian fidelity structurally for all inputs: every store into a gamete is geno[phase, s, same slice] of the selected parent; "
+    "the cursor invariant shows each marker is written exactly once left to right and the source copy can change only at indices where "
+    "rnd < xoprob (strict); mat_mate stacks (female, male) gametes from (fgeno,fsel)/(mgeno,msel) and mat_dh stacks one gamete twice; "
+    "each protocol's mate() evaluates to the documented pedigree term; the two selections of every mat_mate call, the final genotype rows "
+    "and the family labels carry equal per-cross expansion sequences equal to nmating*nprogeny; names/counters, all marker metadata and "
+    "read-only parents are checked by name. No rule depends on a runtime value, so the result holds for every genotype, configuration, count "
+    "vector, selfing depth and generator state.",
+    "Trusted: numpy.repeat / arange / stack / flatnonzero (sorted output) semantics; the pedigree table is transcribed from the protocols' "
+    "docstrings. A re-implementation of the kernel in another shape (e.g. vectorised) is reported as unrecognised (exit 2), not as a verdict.",
+    "DESIGN.md §4 C01")
+CLAIMS["C02"] = (
+    "template verification of the meiosis kernel + formula normalisation of the map functions (limit at +inf) + assignment-chain order rule (ast, own algebraic normal form)",
+    "Decides only the structural necessary conditions of the distributional statement - those without which the output distribution is wrong for "
+    "every generator stream: one independent U[0,1) number per (gamete, marker) from the supplied generator, row i for gamete i; full-row, "
+    "unshifted, strict comparison with xoprob; exactly one toggle per crossover index after the copy; xoprob assigned as "
+    "mapfn(sequential distance of freshly interpolated positions) with +inf at every chromosome start and mapfn(+inf) = 1/2; every meiosis call "
+    "of the seven protocols receives pgmat.vrnt_xoprob and self.rng. Convergence of realised recombination fractions is NOT decided by any "
+    "static argument in reach.",
+    "Trusted: numpy's uniform sampler is U[0,1) i.i.d.; numpy.unique on a grouped (sorted) chromosome vector yields the run starts. "
+    "Every distributional limit in the statement is outside this check.",
+    "DESIGN.md §4 C02")
+CLAIMS["C11"] = (
+    "spec congruence through an algebraic normal form (rational-function normaliser with inverse-pair and limit tables) + template rules for distance, "
+    "interpolation, ordering and probability assignment in both genetic-map classes (ast)",
+    "Decides: mapfn / invmapfn normalise to the Haldane / Kosambi formulas, invmapfn(mapfn(d)) normalises to d, mapfn(0)=0, mapfn(+inf)=1/2, and "
+    "rprob{1,2}{g,p} = mapfn(gdist of the same arguments); sequential distance writes +inf at every run start and the first difference inside the "
+    "run over complete runs from unique(chrgrp); pairwise distance is |gi-gj| of one vector meshed 'ij' with +inf where the identically laid out "
+    "chromosome mesh differs (symmetric, zero diagonal by construction); splines use one mask for x and y and are not assumed sorted; every query "
+    "is written, NaN on KeyError; default sort keys end in the chromosome; reorder/remove/select apply one index to all arrays and reset/recompute "
+    "the grouping; interp_xoprob requires grouping and computes xoprob from the freshly interpolated positions.",
+    "Trusted: scipy interp1d (linearity, extrapolation), numpy meshgrid/unique/lexsort semantics; monotonicity and additivity follow from the "
+    "formulas for exact arithmetic and are not explored numerically.",
+    "DESIGN.md §4 C11")
+
 NOT_YET = "rule set not built yet (build in progress; see DESIGN.md §8)"
 NA = {}
 
